@@ -554,13 +554,13 @@ impl<K: KeyT, V: ValT> World<K, V> {
                         let mut n = 0usize;
                         loop {
                             q!(hints.push(json!([it.size_hint().0, it.size_hint().1.map_or(-1, |x| x as i64), it.len()])));
+                            if Some(n) == clone_at {
+                                $clonable(&it, &mut cyield);
+                            }
                             if let Some(t) = take {
                                 if n >= t {
                                     break;
                                 }
-                            }
-                            if Some(n) == clone_at {
-                                $clonable(&it, &mut cyield);
                             }
                             match it.next() {
                                 Some(x) => {
@@ -800,7 +800,12 @@ impl<K: KeyT, V: ValT> World<K, V> {
             }
             "Entry" => self.exec_entry(op, s, fault),
             "RawEntry" => self.exec_raw_entry(op, s, fault),
-            _ => self.exec_set(op, &name, s, fault),
+            _ => {
+                if let Some(ev) = self.exec_ext(op, &name, s) {
+                    return ev;
+                }
+                self.exec_set(op, &name, s, fault)
+            }
         }
     }
 
